@@ -195,7 +195,7 @@ def w_adc(ctx, rng, i):
 def w_adc_errors(ctx, rng, i):
     x = rng.normal(0, 1, 100)
     with core.quiet():
-        ctx.raises("adc.otype", ValueError, D.ADC, x, None, 4, str(rng.choice(["x", "volts", "", "N "])))
+        ctx.probe("adc.other_otype", D.ADC, x, None, 4, str(rng.choice(["x", "volts", "", "N "])))        # (probe: the statement has no rejection clause)
     ctx.case(("adcerr", i))
 
 
